@@ -49,7 +49,19 @@ def violation(res, sig, what, inp):
         res.violations.append({"signature": sig, "what": what, "input": inp})
 
 
-def correspond(ctx, res, cases, want_hyps=True):
+WITH_HYPS = {"PiBas", "PiPack"}
+
+
+def case_from_replay(rp):
+    inp = rp["input"]
+    db = {bytes.fromhex(k): [bytes.fromhex(i) for i in v] for k, v in inp["database"].items()}
+    cfg = dict(inp["config"])
+    words = [bytes.fromhex(inp["keyword"])] if "keyword" in inp else []
+    present = [w for w in words if w in db] or list(db)
+    return dict(name=inp["scheme"], cfg=cfg, db=db, present=present, absent=[w for w in words if w not in db], profile="replay")
+
+
+def correspond(ctx, res, cases, want_hyps=True, wire=False):
     """recorded-oracle correspondence for the modelled schemes among `cases`"""
     todo = [c for c in cases if c["name"] in sc.MODELLED]
     triples = [(c["name"], c["cfg"], c["db"], c["present"] + c["absent"]) for c in todo]
@@ -66,7 +78,7 @@ def correspond(ctx, res, cases, want_hyps=True):
             if len(res.disagreements) < 25:
                 res.disagreements.append({"case": f"{c['name']} {c['profile']} {what}", "impl": a, "model": b,
                                           "input": show_case(c)})
-        if hyp is not None:
+        if hyp is not None and c["name"] in WITH_HYPS:
             h = res.hypotheses.setdefault("no-collision (" + c["name"] + ")", [0, 0])
             h[1] += 1
             h[0] += 1 if hyp == "1" else 0
